@@ -4,6 +4,7 @@ import EdpVerif.Lemmas.DecTotal
 import EdpVerif.Lemmas.DistHeader
 import EdpVerif.Lemmas.DecMeter
 import EdpVerif.Generated.MiscC02
+import EdpVerif.Lemmas.DecDepth
 /-
 C02 — decoding untrusted bytes always returns: no panic, abort, overflow or blow-up.
 The model makes every Rust panic site an explicit outcome (`DErr.panic`), so "never panics" is a theorem and not a
@@ -434,5 +435,44 @@ theorem C02_sites_are_sources :
 
 /-- the frames a connection hands to the decoders are within the length the 64-bit theorem is stated for -/
 theorem C02_frame_limit_within : Gen.C02_CONNECTION_FRAME_LIMIT ≤ 2 ^ 32 ∧ Gen.C02_FRAMING_FRAME_LIMIT ≤ 2 ^ 32 := by decide
+
+/-! ### what recurses over a decoded term afterwards
+
+`Drop`, `Clone`, `to_owned` / `From<&OwnedTerm>`, `Ord`, `Hash`, `Display` and serde's deserializer walk the decoded term
+structurally: one frame per nesting level of the term (`Term.depth`: a container is one above its deepest child, a leaf 0).
+The decoder's own depth limit bounds that nesting (Lemmas/DecDepth.lean: induction over the decoder model, every tag). -/
+
+/-- a term the decoder returns when entered at depth `d` is nested at most `MAX_NESTING_DEPTH + 1 - d` levels deep — any
+configuration, cache, fuel, input, behaviour of the external calls (the `+ 1`: an empty container at the last level) -/
+theorem C02_decoded_nesting_bounded (x : Ext) (cfg : DecCfg) (fuel d : Nat) (bs : Bytes) (t : Term) (r : Bytes)
+    (h : dec x cfg fuel d bs = .ok (t, r)) : t.depth + d ≤ MAX_NESTING_DEPTH + 1 := dec_depth x cfg fuel d bs t r h
+
+/-- hence every structural recursion over what `decode` / `decode_borrowed` / `decode_with_atom_cache` return
+(`Drop`, `to_owned`, serde) is at most `Gen.MAX_NESTING_DEPTH + 2` = 258 frames deep -/
+theorem C02_recursion_over_decoded_bounded (x : Ext) (cfg : DecCfg) (bs : Bytes) (t : Term)
+    (h : decodeWith x cfg bs = .ok t) : t.depth + 1 ≤ Gen.MAX_NESTING_DEPTH + 2 := by
+  have := decodeWith_depth x cfg bs t h
+  simp only [MAX_NESTING_DEPTH] at this
+  simp only [Gen.MAX_NESTING_DEPTH]
+  omega
+
+/-- the same for the raw entry point (no version byte) -/
+theorem C02_recursion_over_decoded_raw_bounded (x : Ext) (bs : Bytes) (t : Term) (h : decodeRaw x bs = .ok t) :
+    t.depth + 1 ≤ Gen.MAX_NESTING_DEPTH + 2 := by
+  unfold decodeRaw at h
+  split at h
+  · simp at h
+  · rename_i heq
+    simp only [Except.ok.injEq] at h
+    subst h
+    have := dec_depth _ _ _ _ _ _ _ heq
+    simp only [MAX_NESTING_DEPTH] at this
+    simp only [Gen.MAX_NESTING_DEPTH]
+    omega
+  · simp at h
+
+/-- what `Term.depth` counts: a container is one above its deepest child (keys and values alike), a leaf 0 -/
+example : (Term.tuple [.tuple []]).depth = 2 ∧ (Term.map [(.list [.int 1], .nil)]).depth = 2 ∧ (Term.int 1).depth = 0 := by
+  simp [Term.depth, Term.depthL, Term.depthKV]
 
 end Edp.Props.C02
